@@ -126,6 +126,19 @@ func main() {
 		}
 		pkgs = append(pkgs, "./g/"+name)
 	}
+	// packages that use an FFI (disk, async_disk) next to packages that use none: what a package's
+	// header says must not depend on the packages translated with it
+	ffiPkgs := map[string]string{
+		"fdisk": "package fdisk\n\nimport \"github.com/goose-lang/goose/machine/disk\"\n\nfunc Blocks() uint64 {\n\treturn disk.Size()\n}\n",
+		"fasync": "package fasync\n\nimport \"github.com/goose-lang/goose/machine/async_disk\"\n\nfunc Blocks() uint64 {\n\treturn async_disk.Size()\n}\n",
+		"fnone": "package fnone\n\nfunc Seven() uint64 {\n\treturn 7\n}\n",
+	}
+	for _, name := range []string{"fasync", "fdisk", "fnone"} {
+		dir := filepath.Join(mod, "g", name)
+		os.MkdirAll(dir, 0o755)
+		os.WriteFile(filepath.Join(dir, "p.go"), []byte(ffiPkgs[name]), 0o644)
+		pkgs = append(pkgs, "./g/"+name)
+	}
 	mism := 0
 	// reference run
 	refOut := filepath.Join(root, "ref")
@@ -170,7 +183,9 @@ func main() {
 	nsub := 0
 	for i := 0; i < *subsets; i++ {
 		var pats []string
-		if i < 2 {
+		if i < 3 {
+			pats = []string{pkgs[len(pkgs)-1-i]} // each FFI / non-FFI package on its own
+		} else if i < 5 {
 			pats = []string{pkgs[r.Intn(len(pkgs))]} // a package on its own
 		} else {
 			for _, p := range pkgs {
